@@ -4,6 +4,7 @@ For each item it also computes — with the implementation's own evaluator — w
 that item, and the result with exactly those removed (the property: outcome equals what it would be if
 the failing rule did not exist for it). Runs under /venv/bin/python."""
 import csv
+import re
 import datetime
 import io
 import json
@@ -59,11 +60,19 @@ def mk_txn(t):
     return d
 
 
+ADDR = re.compile(r'0x[0-9a-fA-F]+')
+
+
+def noaddr(x):
+    # object addresses inside texts (known finding C03/generator-object-as-value) are not comparable between runs
+    return ADDR.sub('0xADDR', str(x))
+
+
 def canon_match(r):
     return {'matched': bool(r.matched), 'merchant': r.merchant, 'category': r.category, 'subcategory': r.subcategory,
             'rule': r.matched_rule.name if getattr(r, 'matched_rule', None) else None,
-            'tags': sorted(set(r.tags or [])),
-            'extra_fields': {k: repr(v) for k, v in sorted((getattr(r, 'extra_fields', None) or {}).items())}}
+            'tags': sorted({noaddr(t) for t in (r.tags or [])}),
+            'extra_fields': {k: noaddr(repr(v)) for k, v in sorted((getattr(r, 'extra_fields', None) or {}).items())}}
 
 
 def guarded(f):
@@ -143,7 +152,7 @@ def run_rows_case(case):
             rules = MU.get_all_rules(rules_path)
             txns = PA.parse_generic_csv(csv_path, spec, rules, source_name='S')
             return sorted([t['raw_description'] if 'raw_description' in t else t['description'], t['merchant'], t['category'],
-                           t['subcategory'], sorted(t.get('tags', []))] for t in txns)
+                           t['subcategory'], sorted(noaddr(x) for x in t.get('tags', []))] for t in txns)
         out[label] = guarded(go)
     return out
 
